@@ -108,7 +108,14 @@ fn run_twise(ctx: &Ctx, out: &mut dyn Write) {
         if !quick && src.desc.starts_with("table n=4") && !rng.chance(1, 16) {
             continue;
         }
-        let inp: Input = match make_input(format!("c09-s{}-{}", ctx.seed, k), src, &mut rng) {
+        // one input in eight is a c2d file that keeps a false node (a zero-count node below an or node)
+        let c2d_false = rng.chance(1, 8);
+        let made = if c2d_false {
+            crate::k_c01::make_input_class(format!("c09-s{}-{}", ctx.seed, k), src, &mut rng, true)
+        } else {
+            make_input(format!("c09-s{}-{}", ctx.seed, k), src, &mut rng)
+        };
+        let inp: Input = match made {
             Some(i) => i,
             None => continue,
         };
